@@ -433,3 +433,38 @@ def modulus_pack():
         mp.pack = {2048: [(2, KexGroup14.P)]}
         _MODPACK = mp
     return _MODPACK
+
+
+def gate_socket():
+    """A LoopSocket whose *reader* can be held back: while the gate is closed recv() behaves like an idle link
+    (socket.timeout after an Event wait), the bytes stay queued and are delivered in order once it opens."""
+    from tests._loop import LoopSocket
+
+    class Gate(LoopSocket):
+        def __init__(self):
+            super().__init__()
+            self.gate = threading.Event()
+            self.gate.set()
+
+        def recv(self, n):
+            if not self.gate.wait(0.05):
+                raise socket.timeout
+            return super().recv(n)
+
+    return Gate()
+
+
+def swallow_unimplemented(transport, sink):
+    """Peer-side tool: UNIMPLEMENTED messages are recorded and dropped below the peer's run loop (a paramiko
+    peer would treat one as a protocol error while it is itself in a key exchange)."""
+    orig = transport.packetizer.read_message
+
+    def read_message():
+        while True:
+            ptype, m = orig()
+            if ptype == 3:
+                sink.append(m.get_int())
+                continue
+            return ptype, m
+
+    transport.packetizer.read_message = read_message
